@@ -102,7 +102,13 @@ pub fn build_collection(plan: &Plan) -> step::Collection<SimWorld> {
         }
         let esc = regex::escape(&st.text);
         let mut add = |c: step::Collection<SimWorld>, re: String, loc: Option<step::Location>| {
-            let re = Regex::new(&re).expect("harness: regex");
+            // every fifth definition is written in upper case and registered case-insensitively through
+            // `RegexBuilder`: its pattern text alone does not match the step, the flag does
+            let re = if st.text.bytes().map(usize::from).sum::<usize>() % 5 == 3 {
+                regex::RegexBuilder::new(&re.to_uppercase().replace("\\W", "\\w").replace("\\S", "\\s")).case_insensitive(true).build().expect("harness: regex")
+            } else {
+                Regex::new(&re).expect("harness: regex")
+            };
             match st.kw {
                 Kw::Given => c.given(loc, re, world::sim_step),
                 Kw::When => c.when(loc, re, world::sim_step),
